@@ -443,12 +443,12 @@ def run(ctx):
 BROKEN_FILES = ["print 'a python 2 script'\n", "def f(:\n    pass\n", "{{ cookiecutter.template }}\n", "x = = 1\n", "def g():\nreturn 1\n"]
 
 
-def collect_package(root, style):
+def collect_package(root, style, analysis='static'):
     from xdoctest import core
     got = {}
     with warnings.catch_warnings(), contextlib.redirect_stdout(io.StringIO()), contextlib.redirect_stderr(io.StringIO()):
         warnings.simplefilter('ignore')
-        for ex in core.parse_doctestables(root, style=style, analysis='static'):
+        for ex in core.parse_doctestables(root, style=style, analysis=analysis):
             key = (os.path.relpath(ex.modpath, root), ex.callname, ex.num)
             got[key] = got.get(key, 0) + 1
     return got
@@ -471,6 +471,13 @@ def package_files(seed):
             src += ['def %s_f%d():' % (name.strip('_'), j), '    """', '    Example:', '        >>> print(%d)' % j, '        %d' % j, '    """', '']
             expect[(name + '.py', '%s_f%d' % (name.strip('_'), j), 0)] = 1
         files[name + '.py'] = '\n'.join(src) + '\n'
+    if rng.random() < 0.5:
+        # a module that cannot be imported where the collection runs (an optional dependency is missing) and one with a definition in a
+        # branch that is not taken: plain .py files are analysed from their text, so both are collected all the same
+        files['needs_dep.py'] = 'import xdverif_c07_missing_dependency\n\ndef needs_dep_f0():\n    """\n    Example:\n        >>> print(7)\n        7\n    """\n'
+        expect[('needs_dep.py', 'needs_dep_f0', 0)] = 1
+        files['branches.py'] = 'import sys\nif sys.platform == "no such platform":\n    def branches_f0():\n        """\n        Example:\n            >>> print(8)\n            8\n        """\n'
+        expect[('branches.py', 'branches_f0', 0)] = 1
     return files, expect
 
 
@@ -480,7 +487,8 @@ def package_collection(ctx, tmp):
     for i in range(n):
         seed = ctx.seed * 7919 + i
         files, expect = package_files(seed)
-        root = os.path.join(tmp, 'pkgc%d' % i, 'xdverif_c07_pkg%d' % i)
+        # (the package may live below a directory whose name holds a dot and the letters of a file extension: vendor.sources, my.solver, notes.ipynb.d)
+        root = os.path.join(tmp, 'pkgc%d' % i, ['plain', 'vendor.sources', 'my.solver', 'notes.ipynb.d', '.software'][i % 5], 'xdverif_c07_pkg%d' % i)
         os.makedirs(root)
         for fn, src in files.items():
             open(os.path.join(root, fn), 'w').write(src)
@@ -490,6 +498,9 @@ def package_collection(ctx, tmp):
             ctx.nontrivial += 1 if len(expect) > 1 else 0
             try:
                 got = collect_package(root, style)
+                if got == expect:
+                    # the default analysis ('auto') reads .py files statically too, wherever they stand
+                    got = collect_package(root, style, analysis='auto')
             except BaseException as e:      # noqa
                 got = {('raised', type(e).__name__, str(e)[:100]): 1}
             if got != expect:
@@ -498,7 +509,7 @@ def package_collection(ctx, tmp):
                 if len([v for v in ctx.violations if v['kind'] == 'package-collection']) < 4:
                     ctx.violation('package-collection', {
                         'what': 'collecting the package in %s style: collected a wrong number of times / not in the package %r; not collected %r' % (style, extra[:6], missing[:6]),
-                        'files': files, 'style': style, 'pkg_seed': seed, 'theorem_or_correspondence': 'C07: each doctest of the package exactly once, nothing else'}, True)
+                        'files': files, 'style': style, 'pkg_seed': seed, 'pkg_parent': os.path.basename(os.path.dirname(root)), 'theorem_or_correspondence': 'C07: each doctest of the package exactly once, nothing else'}, True)
     ctx.count('package_collections', n * 3)
     ctx.count('package_files_that_do_not_parse', nb)
 
@@ -511,12 +522,14 @@ def replay_package(d, path):
             files = d['files']
             print('(the generator has changed since this replay was written: only duplicates and broken files are judged)')
             expect = None
-        root = os.path.join(tmp, 'xdverif_c07_pkgr')
+        root = os.path.join(tmp, d.get('pkg_parent', 'plain'), 'xdverif_c07_pkgr')
         os.makedirs(root)
         for fn, src in files.items():
             open(os.path.join(root, fn), 'w').write(src)
         try:
             got = collect_package(root, d['style'])
+            if expect is not None and got == expect:
+                got = collect_package(root, d['style'], analysis='auto')
         except BaseException as e:      # noqa
             got = {('raised', type(e).__name__, str(e)[:100]): 1}
         print('collected %r' % sorted(got.items()))
